@@ -185,6 +185,10 @@ def structural(chk):
             names_after = {ast.unparse(n.func) for b in after for n in ast.walk(b) if isinstance(n, ast.Call)}
             phases_before = {'self.bidding_phase', 'self.playing_phase', 'self.deal'} <= names and \
                 not ({'self.bidding_phase', 'self.playing_phase', 'self.deal'} & names_after)
+        if not (good and phases_before):
+            # this reading knows one arrangement (deal / auction / play as statements of the loop body, then the write); the phases behind a helper
+            # or a result object are not judged here: R6 decides on aborted sessions (exactly the k-1 finished boards are in the log)
+            raise AnalysisError('C13.R3', q_run, 'the per-board write is not preceded by the three phase calls as statements of the same loop body: not judged structurally (R6 decides)')
         chk.require(good and phases_before, 'C13.R3', repo.where(sm, wc_), q_run, 'per-board record write',
                     'each board is written once, as a whole, after its deal, auction and play',
                     'the record write is not the closing step of the board loop body: an abort inside a board could leave that board in the log')
